@@ -18,7 +18,7 @@ func zzBatchKeys() [][]byte {
 // fall into and when one region's batch meets a topology change.
 func ZZ_C11_batch_get() {
 	nreg := zzParam("nreg", 2)
-	w := zzNewWorld(zzParam("nkeys", 2), nreg, true)
+	w := zzNewWorld(zzParam("bkeys", 2), nreg, true)
 	defer w.close()
 	w.batchVariant(zzChoice("variant", zzBatchVariants(nreg)))
 	keys := zzBatchKeys()
@@ -38,7 +38,7 @@ func ZZ_C11_batch_get() {
 // the last value).
 func ZZ_C11_batch_put() {
 	nreg := zzParam("nreg", 2)
-	w := zzNewWorld(zzParam("nkeys", 2), nreg, false)
+	w := zzNewWorld(zzParam("bkeys", 2), nreg, false)
 	defer w.close()
 	w.batchVariant(zzChoice("variant", zzBatchVariants(nreg)))
 	keys := zzBatchKeys()
@@ -58,7 +58,7 @@ func ZZ_C11_batch_put() {
 // ZZ_C11_batch_delete: BatchDelete removes exactly the named keys.
 func ZZ_C11_batch_delete() {
 	nreg := zzParam("nreg", 2)
-	w := zzNewWorld(zzParam("nkeys", 2), nreg, false)
+	w := zzNewWorld(zzParam("bkeys", 2), nreg, false)
 	defer w.close()
 	w.batchVariant(zzChoice("variant", zzBatchVariants(nreg)))
 	keys := zzBatchKeys()
